@@ -164,8 +164,11 @@ func (g *generatorv2) funcMap(
 		},
 		"quote": strconv.Quote,
 		"import": func(importPath string) string {
-			if names := file.Imports[importPath]; len(names) > 0 {
-				return names[0]
+			for _, name := range file.Imports[importPath] {
+				// A blank import does not bind a name we could use.
+				if name != "_" {
+					return name
+				}
 			}
 			res := printImportAlias(importPath, filepath.Base(importPath), addImports, aliases)
 			return res
@@ -199,6 +202,10 @@ func (g *generatorv2) typePrinter(f *file, addImports map[string]string, aliases
 
 				// Using a named import.
 				if imp.Name != nil {
+					if imp.Name.Name == "_" {
+						// A blank import does not bind a name.
+						continue
+					}
 					return imp.Name.Name
 				}
 
